@@ -1,4 +1,4 @@
-import Tickit.Proof.RBFlush
+import Tickit.Proof.RBFlushSpec
 /-
   C04 — flushing a render buffer reproduces its content on the terminal exactly once.
 
@@ -129,5 +129,25 @@ example :
     let rb := textAt (RB.new 1 3 0 0) 0 1 [0x61, 0x62]
     (flushToTerm rb).out = .ok ∧ (flushToTerm rb).reqs = [.goto 0 1, .setpen Pen.empty, .print [0x61, 0x62] 0 2] := by
   decide +kernel
+
+/-! ## The flush reproduces the buffer on the terminal, exactly once -/
+
+/-- The statement of `flush_spec` for a buffer `rb`: the flush completes and, whatever the terminal showed before
+    (`t`: any grid, cursor, pen, cursor oracle, print path), every terminal cell afterwards satisfies `cellOK` against
+    the content of the buffer: skipped cells and cells outside the buffer are untouched (glyph, pen and write count),
+    erase cells are blank, char cells show their code point, line cells a box-drawing glyph with the arms of the mask,
+    text cells the grapheme of their column (a half of a cut double-width character: blank), each with a rendition
+    equivalent to its pen and written exactly once. -/
+def FlushSpec (rb : RB) : Prop :=
+  ∀ t : GridTerm,
+    (flushToTerm rb).out = .ok ∧
+    ∀ l c, cellOK (want rb l c) (t.cells l c) ((t.run (flushToTerm rb).reqs).cells l c) = true
+
+/-- **flush_spec_notext**: `FlushSpec` for every well-formed buffer without TEXT runs — skip, erase (both `moveend`
+    choices and every oracle for the cursor after `erasech(…, MAYBE)`), batched line cells and one-column char cells,
+    with the cursor tracker's goto elision. -/
+theorem flush_spec_notext (rb : RB) (hwf : FlushWF rb)
+    (hnt : ∀ line col, (rb.cell line col).state ≠ .text) : FlushSpec rb :=
+  fun t => flush_spec_of_text hwf (fun line col _ _ _ _ hs => absurd hs (hnt line col)) t
 
 end Tickit.Props.C04
